@@ -345,8 +345,16 @@ func (m *Message) GetClassAdRaw(ctx context.Context) (string, error) {
 // (a small expression count) from a DC_NOP end-of-batch marker -- before
 // committing to reading an ad. See GetClassAdRaw.
 func (m *Message) GetClassAdRawBody(ctx context.Context, numExprs int) (string, error) {
+	if numExprs < 0 {
+		return "", fmt.Errorf("malformed ClassAd: negative expression count %d", numExprs)
+	}
 	var b strings.Builder
 	for i := 0; i < numExprs; i++ {
+		// The count is chosen by the peer: never iterate (or grow the result) past
+		// the data that actually arrived.
+		if m.exhausted() {
+			return "", fmt.Errorf("malformed ClassAd: message ended after %d of %d expressions", i, numExprs)
+		}
 		exprStr, err := m.GetString(ctx)
 		if err != nil {
 			return "", fmt.Errorf("failed to read expression %d (expected %d): %w", i, numExprs, err)
